@@ -25,7 +25,7 @@ Inductive col :=
 Inductive param :=
 | P_account_uuid | P_min_value | P_anchor_height | P_tip_unscanned | P_scanned_priority
 | P_target_height | P_target_value | P_chain_tip | P_owner
-| P_min_confirmations | P_coinbase_filter.
+| P_min_confirmations | P_coinbase_filter | P_has_allow_list.
 
 (** rarray parameters *)
 Inductive lparam := L_exclude | L_overridable_owners | L_addresses.
